@@ -459,14 +459,17 @@ impl<'r> Gen<'r> {
                     return self.item(name, Form::Word);
                 }
                 if self.mistake(self.cfg.allow.arity, 10) {
-                    // zero or two nested items
+                    // zero or two nested items; a quarter of the surplus cases three to five
                     let items = if self.rng.pct(50) {
                         vec![]
                     } else {
-                        let (ia, ib) = (self.rng.below(usable.len()), self.rng.below(usable.len()));
-                        let a = self.variant_item(usable[ia], depth + 1);
-                        let b = self.variant_item(usable[ib], depth + 1);
-                        vec![Nested::Item(a), Nested::Item(b)]
+                        let n = if self.rng.pct(25) { self.rng.range(3, 5) } else { 2 };
+                        (0..n)
+                            .map(|_| {
+                                let i = self.rng.below(usable.len());
+                                Nested::Item(self.variant_item(usable[i], depth + 1))
+                            })
+                            .collect()
                     };
                     return self.item(name, Form::List(items));
                 }
